@@ -27,6 +27,8 @@ EXPLANATION = (
     "also when its elements reach it through locals derived from self._data_seq / self._seq / the arguments or through a module-level helper.  Does not decide the "
     "concrete context seen for a concrete tree.")
 RULES = {
+    "C13-h": "MEMORYLESS: no _set_context method reads a field that it writes itself -- what an element makes of the static context "
+             "depends on the context it is given now and on what the constructor stored, not on an earlier call",
     "C13-a": "FOLD: LenaSequence._set_context threads the context forwards through self._seq, set before get",
     "C13-b": "FRESH: _get_context returns a deep copy / the fresh intersection; LenaSplit._set_context deep-copies per branch",
     "C13-c": "FRESH: a _set_context consumer keeps only immutable derivations or deep copies of its argument",
@@ -707,7 +709,52 @@ def check_rethreading(ctx):
     ctx.instances_floor("C13-g", n, 5, "constructors of LenaSequence subclasses in lena.core")
 
 
+def check_memoryless(ctx):
+    """C13-h.  _set_context is called again whenever an enclosing sequence is built (a Source re-threads its tail, an outer
+    Sequence sets the context of an inner one): the last call must win.  A _set_context that consults the field it assigns
+    (Cache testing its already formatted _filename for '{' instead of the template) freezes the result of the first call."""
+    n = 0
+    bad = 0
+    for mod, fn in ctx.tree.functions():
+        if fn.name != "_set_context" or A.enclosing_class(fn) is None:
+            continue
+        n += 1
+        written = {}
+        for a in A.walk_local(fn):
+            if isinstance(a, (ast.Assign, ast.AugAssign)):
+                for t in A.assigned_targets(a):
+                    if A.is_self_attr(t):
+                        written.setdefault(t.attr, a)
+        for p in P.paths_of(fn):
+            done = set()
+            for i, node in p.exprs():
+                for x in A.walk_local(node):
+                    if A.is_self_attr(x) and isinstance(x.ctx, ast.Load) and x.attr in written and x.attr not in done:
+                        key = (A.qualname(fn), x.attr)
+                        if key in _MEM_SEEN:
+                            continue
+                        _MEM_SEEN.add(key)
+                        bad += 1
+                        ctx.violation("C13-h", x, "%s reads self.%s [%s] before assigning it in the same call: the field holds what an "
+                                      "earlier _set_context left there, so once it has been set the static context given later (by an "
+                                      "enclosing sequence built afterwards) is judged by the old result and may be ignored -- the element's "
+                                      "context no longer depends only on what encloses and precedes it" % (
+                                          A.qualname(fn), x.attr, p.describe(3)), construct="set-context-reads-own-output:%s" % x.attr, path=p)
+                if isinstance(node, (ast.Assign, ast.AugAssign)):
+                    for t in A.assigned_targets(node):
+                        if A.is_self_attr(t) and isinstance(node, ast.Assign):
+                            done.add(t.attr)
+    _MEM_SEEN.clear()
+    ctx.instances_floor("C13-h", n, 7, "_set_context methods")
+    if not bad:
+        ctx.ok("C13-h", ("lena", "<tree>"), "%d _set_context methods: none reads a field it assigns" % n)
+
+
+_MEM_SEEN = set()
+
+
 def check(ctx):
+    check_memoryless(ctx)
     check_fold(ctx)
     check_rethreading(ctx)
     check_split_routing(ctx)
@@ -718,6 +765,7 @@ def check(ctx):
 
 
 VARIANTS = [
+    M("cache-set-context-tests-own-output", "lena/flow/cache.py", "        if '{' not in self._orig_filename:", "        if '{' not in self._filename:", ["C13-h"]),
     M("source-rethread-only-when-context-known", "lena/core/source.py", "            try:\n                self._set_context({})\n            except LenaKeyError:\n                pass\n        else:\n            self._tail = ()",
       "            if hasattr(self, \"_static_context\"):\n                try:\n                    self._set_context({})\n                except LenaKeyError:\n                    pass\n        else:\n            self._tail = ()", ["C13-g"]),
     M("revert-fix-fill-compute-seq-rethread", "lena/core/fill_compute_seq.py", "        try:\n            self._set_context({})\n        except exceptions.LenaKeyError:\n            pass\n", "", ["C13-g"]),
